@@ -147,10 +147,22 @@ func (c *TreeCacheClientImpl) ReadUpdatesOwner(ctx context.Context, owner string
 
 	ownerPaths := c.getPathsOfOwner(ctx, owner)
 
-	return c.Read(ctx, &cache.Opts{
-		Store: cachepb.Store_INTENDED,
-		Owner: owner,
+	// With Priority 0 the cache returns only the highest-precedence entries of
+	// each path, whoever owns them. Read all priorities of the owner's paths
+	// and keep the owner's entries, so that shadowed entries are found as well.
+	all := c.Read(ctx, &cache.Opts{
+		Store:    cachepb.Store_INTENDED,
+		Owner:    owner,
+		Priority: -1,
 	}, ownerPaths.paths.ToStringSlice())
+
+	result := make(UpdateSlice, 0, len(all))
+	for _, u := range all {
+		if u.Owner() == owner {
+			result = append(result, u)
+		}
+	}
+	return result
 }
 
 func (c *TreeCacheClientImpl) getPathsOfOwner(ctx context.Context, owner string) *PathSet {
